@@ -6,7 +6,7 @@ from typing import Any, Dict, List
 
 from hypothesis import strategies as st
 
-from taskiq import AsyncBroker, SimpleRetryMiddleware
+from taskiq import AsyncBroker, Context, SimpleRetryMiddleware, TaskiqDepends
 from taskiq.brokers.inmemory_broker import InmemoryResultBackend
 from taskiq.exceptions import NoResultError
 from taskiq.formatters.json_formatter import JSONFormatter
@@ -27,7 +27,8 @@ RULE = (
     "Oracle = reference model written from the statement: executions = position of the first non-fail outcome, capped "
     "at max(1, max_retries) when retry is enabled, else 1; saves: re-sent attempts store nothing iff no_result_on_retry, "
     "the last attempt's outcome is stored unless it is no-result; every attempt has the same task id, args, kwargs and "
-    "user labels (value and type). Non-trivial: >=2 executions, or max_retries in {0,1}, or the retry flag given as a "
+    "user labels (value and type) and no label this call never had; in a third of the cases a second call of the same task "
+    "(own labels, own outcomes) is handled by the same middleware instance afterwards and must follow its own model. Non-trivial: >=2 executions, or max_retries in {0,1}, or the retry flag given as a "
     "string; distinct = canonical JSON."
 )
 ASSUMPTIONS = ["deliveries are driven directly through Receiver.callback (no listen loop: timing is irrelevant to C11)"]
@@ -61,6 +62,12 @@ def cases() -> Any:
                              st.one_of(st.integers(-10**12, 10**12), st.text(max_size=3), st.booleans(), st.floats(allow_nan=False, allow_infinity=False, width=32)),
                              max_size=2),
         codec=st.sampled_from(["json", "json", "pickle", "jsonfmt"]),
+        # a second call of the same task handled by the same middleware instance (own labels, own outcome sequence)
+        second=st.one_of(st.none(), st.none(), st.fixed_dictionaries(dict(
+            outs=st.one_of(prefix, free),
+            mr=st.one_of(st.none(), st.tuples(st.sampled_from(["int", "str"]), st.integers(0, 6)).map(list)),
+            roe=st.sampled_from([None, None, True, False, "true"]),
+            user=st.dictionaries(st.sampled_from(["u1", "u3"]), st.one_of(st.integers(-9, 9), st.text(max_size=3)), max_size=2)))),
     ))
 
 
@@ -99,15 +106,18 @@ def run_case(c: Dict[str, Any]) -> Outcome:
     out = Outcome()
     out.clauses_checked = ["C11.a", "C11.b", "C11.c", "C11.d"]
     ARGS, KW = [1, "x", [2.5, None]], {"z": {"k": 1}}
+    calls = [c]
+    if c.get("second"):
+        calls.append({**c["second"], "dflt_count": c["dflt_count"], "dflt_label": c["dflt_label"], "nror": c["nror"]})
 
     async def go() -> Any:
         b = QB()
         saves: List[Any] = []
-        runs = [0]
+        runs: Dict[str, int] = {}
 
         class RB(InmemoryResultBackend):
             async def set_result(self, tid: str, res: Any) -> None:
-                saves.append(["err" if res.is_err else "ok", runs[0], tid, res.return_value])
+                saves.append(["err" if res.is_err else "ok", runs.get(tid, 0), tid, res.return_value])
                 await super().set_result(tid, res)
 
         b.result_backend = RB()
@@ -118,68 +128,92 @@ def run_case(c: Dict[str, Any]) -> Outcome:
         b.add_middlewares(SimpleRetryMiddleware(default_retry_count=c["dflt_count"], default_retry_label=c["dflt_label"],
                                                 no_result_on_retry=c["nror"]))
         seen: List[Any] = []
-        outs = c["outs"] + ["fail"] * 10
 
-        async def t(a: Any, b_: Any = None, c_: Any = None, z: Any = None) -> Any:
-            o = outs[runs[0]] if runs[0] < len(outs) else "ok"
-            runs[0] += 1
-            seen.append(([a, b_, c_], {"z": z}))
+        async def t(a: Any, b_: Any = None, c_: Any = None, z: Any = None, ctx: Context = TaskiqDepends()) -> Any:
+            tid = ctx.message.task_id
+            outs = calls[int(tid[1:])]["outs"] + ["fail"] * 10
+            n = runs.get(tid, 0)
+            o = outs[n] if n < len(outs) else "ok"
+            runs[tid] = n + 1
+            seen.append((tid, [a, b_, c_], {"z": z}))
             if o == "fail":
                 raise ValueError("f")
             if o == "nores":
                 raise NoResultError()
-            return runs[0]
+            return runs[tid]
 
         t.__module__ = __name__
         b.register_task(t, task_name="t")
-        labels = dict(c["user"])
-        if c["roe"] is not None:
-            labels["retry_on_error"] = c["roe"]
-        if c["mr"]:
-            labels["max_retries"] = c["mr"][1] if c["mr"][0] == "int" else str(c["mr"][1])
         r = Receiver(b, max_async_tasks=5, run_startup=False)
-        await AsyncKicker("t", b, labels).with_task_id("T").kiq(*ARGS, **KW)
-        msgs = []
-        guard = 0
-        while b.q and guard < 40:
-            guard += 1
-            m = b.q.pop(0)
-            tm = b.formatter.loads(m.message)
-            tm.parse_labels()
-            msgs.append((m, tm))
-            await r.callback(m.message)
-        return runs[0], saves, seen, msgs, guard
+        for n, cl in enumerate(calls):
+            labels = dict(cl["user"])
+            if cl["roe"] is not None:
+                labels["retry_on_error"] = cl["roe"]
+            if cl["mr"]:
+                labels["max_retries"] = cl["mr"][1] if cl["mr"][0] == "int" else str(cl["mr"][1])
+            await AsyncKicker("t", b, labels).with_task_id(f"T{n}").kiq(*ARGS, **KW)
+            # the first call is processed to the end before the second one is sent
+            guard = 0
+            while b.q and guard < 40:
+                guard += 1
+                m = b.q.pop(0)
+                tm = b.formatter.loads(m.message)
+                tm.parse_labels()
+                msgs.append((m, tm))
+                await r.callback(m.message)
+            guards.append(guard)
+        return runs, saves, seen
 
-    execs, saves, seen, msgs, guard = asyncio.run(go())
-    me, ms = model(c)
-    if guard >= 40:
-        out.add("C11.a", "the task was still being re-sent after 40 deliveries (unbounded retry)")
-    if execs != me:
-        out.add("C11.a" if execs > me else "C11.d" if me == 1 else "C11.a",
-                f"{execs} executions, reference model {me} (outcomes {c['outs'][:8]}, max_retries={c['mr']}, default {c['dflt_count']}, "
-                f"retry_on_error={c['roe']!r}, default {c['dflt_label']})")
-    elif [[s[0], s[1]] for s in saves] != ms:
-        out.add("C11.c", f"saves (kind, after execution #) {[[s[0], s[1]] for s in saves]} != reference model {ms} (no_result_on_retry={c['nror']})")
-    if len(msgs) != execs:
-        out.add("C11.d", f"{len(msgs)} deliveries but {execs} executions")
-    if any(s[2] != "T" for s in saves) or any(tm.task_id != "T" or m.task_id != "T" for m, tm in msgs):
-        out.add("C11.b", "task id changed between attempts")
-    for a, k in seen:
-        if a != [1, "x", [2.5, None]] or k != {"z": {"k": 1}}:
-            out.add("C11.b", f"attempt received args {short((a, k), 120)}")
-            break
-    for n, (m, tm) in enumerate(msgs):
-        for key, val in c["user"].items():
-            got = tm.labels.get(key, "<missing>")
-            if type(got) is not type(val) or got != val:
-                out.add("C11.b", f"attempt {n + 1}: user label {key!r} = {got!r} ({type(got).__name__}), sent {val!r} ({type(val).__name__})")
+    msgs: List[Any] = []
+    guards: List[int] = []
+    runs, saves, seen = asyncio.run(go())
+    nontriv = False
+    classes: List[str] = [c["codec"]]
+    for n, cl in enumerate(calls):
+        tid = f"T{n}"
+        execs = runs.get(tid, 0)
+        me, ms = model(cl)
+        my_saves = [s for s in saves if s[2] == tid]
+        my_msgs = [(m, tm) for m, tm in msgs if tm.task_id == tid]
+        who = f"call {n}: " if len(calls) > 1 else ""
+        if guards[n] >= 40:
+            out.add("C11.a", f"{who}the task was still being re-sent after 40 deliveries (unbounded retry)")
+        if execs != me:
+            out.add("C11.a" if execs > me else "C11.d" if me == 1 else "C11.a",
+                    f"{who}{execs} executions, reference model {me} (outcomes {cl['outs'][:8]}, max_retries={cl['mr']}, default {cl['dflt_count']}, "
+                    f"retry_on_error={cl['roe']!r}, default {cl['dflt_label']})"
+                    + (f"; the other call had max_retries={calls[1 - n]['mr']}, retry_on_error={calls[1 - n]['roe']!r}" if len(calls) > 1 else ""))
+        elif [[s[0], s[1]] for s in my_saves] != ms:
+            out.add("C11.c", f"{who}saves (kind, after execution #) {[[s[0], s[1]] for s in my_saves]} != reference model {ms} (no_result_on_retry={cl['nror']})")
+        if len(my_msgs) != execs:
+            out.add("C11.d", f"{who}{len(my_msgs)} deliveries but {execs} executions")
+        for tid2, a, k in seen:
+            if tid2 == tid and (a != [1, "x", [2.5, None]] or k != {"z": {"k": 1}}):
+                out.add("C11.b", f"{who}attempt received args {short((a, k), 120)}")
                 break
-    out.nontrivial = bool(me >= 2 or (c["mr"] and c["mr"][1] in (0, 1)) or isinstance(c["roe"], str))
-    out.classes = [f"execs={min(me, 4)}{'+' if me > 4 else ''}", c["codec"]] + [cl for cl, f in (
-        ("retry_flag_str", isinstance(c["roe"], str)), ("max_retries_str", bool(c["mr"] and c["mr"][0] == "str")),
-        ("max_retries_0_or_1", bool(c["mr"] and c["mr"][1] in (0, 1))), ("ends_nores", c["outs"][min(me, len(c["outs"])) - 1] == "nores" if me <= len(c["outs"]) else False),
-        ("capped", me < len([o for o in c["outs"] if o == "fail"]) + 0 and c["outs"][me - 1] == "fail")) if f]
-    out.trace = {"executions": execs, "saves": [[s[0], s[1]] for s in saves], "deliveries": len(msgs)}
+        for k_, (m, tm) in enumerate(my_msgs):
+            for key, val in cl["user"].items():
+                got = tm.labels.get(key, "<missing>")
+                if type(got) is not type(val) or got != val:
+                    out.add("C11.b", f"{who}attempt {k_ + 1}: user label {key!r} = {got!r} ({type(got).__name__}), sent {val!r} ({type(val).__name__})")
+                    break
+            foreign = set(tm.labels) - set(cl["user"]) - {"retry_on_error", "max_retries", "_retries"}
+            if cl["roe"] is None:
+                foreign |= {"retry_on_error"} & set(tm.labels)
+            if not cl["mr"]:
+                foreign |= {"max_retries"} & set(tm.labels)
+            if foreign:
+                out.add("C11.b", f"{who}attempt {k_ + 1} carries labels {sorted(foreign)} that this call never had")
+                break
+        nontriv = nontriv or bool(me >= 2 or (cl["mr"] and cl["mr"][1] in (0, 1)) or isinstance(cl["roe"], str))
+        classes += [f"execs={min(me, 4)}{'+' if me > 4 else ''}"] + [x for x, f in (
+            ("retry_flag_str", isinstance(cl["roe"], str)), ("max_retries_str", bool(cl["mr"] and cl["mr"][0] == "str")),
+            ("max_retries_0_or_1", bool(cl["mr"] and cl["mr"][1] in (0, 1)))) if f]
+    if any(tm.task_id not in ("T0", "T1") for m, tm in msgs) or any(s[2] not in ("T0", "T1") for s in saves):
+        out.add("C11.b", "task id changed between attempts")
+    out.nontrivial = nontriv
+    out.classes = sorted(set(classes)) + (["two_calls"] if len(calls) > 1 else [])
+    out.trace = {"executions": runs, "saves": [[s[0], s[1], s[2]] for s in saves], "deliveries": len(msgs)}
     return out
 
 
